@@ -440,7 +440,7 @@ Definition back_tail (w : world) (n : nat) (now : Z) (c : client) (p : params) (
                  <| a_jkt := if push then set_pop_jkt cfg (br_bind r) else 0%N |>
                  <| a_x5t := if push then set_pop_x5t cfg (br_bind r) else 0%N |>
                  <| a_subject := br_sub r |> <| a_granted := br_granted r |>
-                 <| a_granted_res := br_granted_res r |> in
+                 <| a_granted_res := br_granted_res r |> <| a_granted_details := br_granted_details r |> in
       if negb (br_init_ok r) then Ret (OErr EAccessDenied) else
       save_a s (fun rs =>
         match rs with RFail => Ret (OErr EInternalError)
